@@ -122,6 +122,16 @@ func genC15(t *rapid.T) (c C15Case) {
 		if rapid.Bool().Draw(t, "fesmall") {
 			c.FE = rapid.IntRange(-80, 80).Draw(t, "fes")
 		}
+		smallExact := rapid.IntRange(0, 3).Draw(t, "smallexact") == 0
+		if smallExact {
+			// small integers and dyadic fractions whose expansion fits tiny precisions
+			c.FM = big.NewInt(int64(rapid.IntRange(-2000, 2000).Draw(t, "fmsmall"))).String()
+			if c.FM == "0" {
+				c.FM = "15"
+			}
+			c.FE = rapid.IntRange(-12, 12).Draw(t, "fesm")
+			c.FP = uint(rapid.IntRange(11, 64).Draw(t, "fpsm"))
+		}
 		switch rapid.IntRange(0, 3).Draw(t, "pcls") {
 		case 0:
 			c.P = 0
@@ -129,6 +139,9 @@ func genC15(t *rapid.T) (c C15Case) {
 			c.P = uint(rapid.IntRange(1, 10).Draw(t, "p"))
 		default:
 			c.P = uint(rapid.IntRange(1, 700).Draw(t, "p"))
+		}
+		if smallExact && c.P > 12 {
+			c.P = uint(rapid.IntRange(1, 12).Draw(t, "psm"))
 		}
 		c.Z = genRecvPrev(t, c.P, c.M)
 	case "float64", "float32":
